@@ -6,6 +6,7 @@ package main
 
 import (
 	"fmt"
+	"os"
 	"go/types"
 	"math/big"
 	"regexp"
@@ -281,6 +282,12 @@ func (e *Engine) verifyFunction(fn *ssa.Function, c *Contract) (err error) {
 	}
 	plans := e.aliasPlans(fn, c)
 	cases := e.splitCases(c)
+	e.anyReturn = false
+	defer func() {
+		if err == nil && !e.anyReturn && len(c.Ensures) > 0 {
+			e.errors = append(e.errors, fmt.Sprintf("%s: no normal exit reachable in any variant", e.curFunc))
+		}
+	}()
 	for _, plan := range plans {
 		for _, sc := range cases {
 			var labs []string
@@ -300,6 +307,9 @@ func (e *Engine) verifyFunction(fn *ssa.Function, c *Contract) (err error) {
 
 func (e *Engine) verifyVariant(fn *ssa.Function, c *Contract, plan aliasPlan, sc splitCase) {
 	e.steps = 0
+	if os.Getenv("VCGO_DEBUG") != "" {
+		fmt.Fprintf(os.Stderr, "[verify] %s [%s]\n", e.curFunc, e.variant)
+	}
 	st := &State{mem: e.gmem.clone(), hypKeys: map[string]bool{}, subst: map[string]*Term{}, names: map[string]Value{}, cuts: map[string]bool{}, weak: map[string]bool{}, inLoop: map[*ssa.BasicBlock]bool{}, ghost: map[string]Value{}}
 	args := make([]Value, len(fn.Params))
 	params := map[string]Value{}
@@ -371,6 +381,8 @@ func (e *Engine) verifyVariant(fn *ssa.Function, c *Contract, plan aliasPlan, sc
 			}
 		}()
 	}
+	e.eagerPrune = len(sc.assume) > 0
+	defer func() { e.eagerPrune = false }()
 	st.entryH = len(st.hyps)
 	old := st.fork()
 	// vacuity guard: the entry assumptions must be satisfiable
@@ -389,10 +401,12 @@ func (e *Engine) verifyVariant(fn *ssa.Function, c *Contract, plan aliasPlan, sc
 	for _, ex := range exits {
 		switch ex.kind {
 		case "return":
-			nret++
-			e.checkReturn(ex, fr, fn, c, args, params, old)
+			ex := ex
+			r := e.guarded(ex.st, func() []Exit { e.checkReturn(ex, fr, fn, c, args, params, old); return []Exit{ex} })
+			nret += len(r)
 		case "panic":
-			e.checkPanic(ex, fr, fn, c, args, params, old)
+			ex := ex
+			e.guarded(ex.st, func() []Exit { e.checkPanic(ex, fr, fn, c, args, params, old); return nil })
 		}
 	}
 	for _, ex := range exits {
@@ -405,8 +419,8 @@ func (e *Engine) verifyVariant(fn *ssa.Function, c *Contract, plan aliasPlan, sc
 			break
 		}
 	}
-	if nret == 0 && len(c.Ensures) > 0 {
-		e.errors = append(e.errors, fmt.Sprintf("%s [%s]: no normal exit reachable", e.curFunc, e.variant))
+	if nret > 0 {
+		e.anyReturn = true
 	}
 }
 
